@@ -1,4 +1,4 @@
-(* C10 -- GENERATED decision logic (cxx2coq) tied to the hand model:
+(* C10 -- HAND-WRITTEN (despite being about generated code; only Gen_*.v files are generated): the GENERATED decision logic (cxx2coq) tied to the hand model:
      Gen_StdInsert / Gen_StdInsertU : stdish set / unordered_set insert(const_iterator hint, node_type&&) (set.h:466-473,
                                       unordered_set.h:495-505, as fixed in 9f37105)
      Gen_MergeTo                    : TreeSet::MergeTo(TreeSet&) (TreeSet.h:956-998): identity / traits / empty tests, Swap, the
@@ -189,8 +189,8 @@ Proof. reflexivity. Qed.
 (* InsertCrt = pvInsert; MOMO_EXTRA_CHECK(!extraCheck || pvExtraCheck(pos)): Stuck = a failed assertion *)
 Definition insert_crt_checked {S} (after_add : S) (check_result : bool) : outcome S := if check_result then Ok after_add else Stuck.
 
-Theorem insert_crt_never_aborts_on_throwing_functor {S} (after_add : S) pos_eqb deref find_ key_ pos :
-  insert_crt_checked after_add (Gen_ExtraCheckH.pvExtraCheck true pos_eqb deref find_ key_ pos) = Ok after_add.
+Theorem insert_crt_never_aborts_on_throwing_functor (S : Type) (after_add : S) pos_eqb deref find_ key_ pos :
+  @insert_crt_checked S after_add (Gen_ExtraCheckH.pvExtraCheck true pos_eqb deref find_ key_ pos) = Ok after_add.
 Proof. reflexivity. Qed.
 
 (* without a throw the generated check is the genuine check *)
